@@ -8,6 +8,8 @@ mod c21;
 mod c22;
 mod c23;
 mod c24;
+mod c25;
+mod c26;
 mod compare;
 mod emit;
 mod gen;
@@ -34,6 +36,8 @@ fn main() {
         "C22" => c22::run(&mut ctx),
         "C23" => c23::run(&mut ctx),
         "C24" => c24::run(&mut ctx),
+        "C25" => c25::run(&mut ctx),
+        "C26" => c26::run(&mut ctx),
         _ => {
             eprintln!("dfirsem does not serve property {prop}");
             std::process::exit(2);
